@@ -161,6 +161,18 @@ PROPS["C13"] = dict(
     assumptions=["output buffer and result do not alias", "buffer position k below 2^40"],
 )
 
+PROPS["C12"] = dict(
+    level="other",
+    claim="In every instantiated SIMD evaluator path with a linear index (unary, same-shape binary, full reduction; x86 AVX and SSE, float and double): each packed load/store at &p[i] is reachable only through the true edge of (i + lanes) <= size with lanes = register bits / element bits and size the element count, each scalar tail store only through i < size; reduction accumulators are seeded from the op's identity and all identity sources of one instantiation agree. Enumerator-driven paths (broadcast, outer, axis reductions), bit-identity of results and SIMDe/vector-extension back-ends are not decided.",
+    note=E2_NOTE + " Dominance is computed on clang's CFG of the instantiated evaluator members (if-constexpr resolved).",
+    technique="static: CFG dominance rule over instantiated evaluator code (custom libTooling extractor), sibling agreement of identity sources",
+    e2=[dict(rule="R-SIMD")],
+    rule="E2: one instance per packed access / scalar tail store / accumulator seed in each instantiated evaluator member; distinct by (instantiation, source line)",
+    explanation="Never reading or writing outside the buffers is, for the linear paths, exactly the loop-guard dominance property; seeding with identity is necessary for reductions other than add.",
+    not_decided="offsets computed by simd/index/ufunc.hpp enumerators (non-linear in run-time shapes), matmul tiles, element values",
+    assumptions=["driver /verif/drivers/simd_inst.cpp instantiates the evaluator for the listed contexts"],
+)
+
 HOOK_COMMITS = []
 NOT_APPLICABLE = [
  dict(property_id="C05", reason="slice lengths go through ceil(float) and an 8-way sign/None case split on run-time values; no sound static argument in reach, and weaker structural proxies are not necessary conditions (DESIGN §3 C05)"),
